@@ -183,6 +183,15 @@ def builders():
         m0, m1, m2 = new_mesh(), new_mesh(), new_mesh()
         return CellVolume(m1) * ufl.Circumradius(m2) * ufl.Measure("dx", domain=m0) + ufl.Circumradius(m1) * CellVolume(m2) * CellVolume(m2) * ufl.Measure("ds", domain=m0)
 
+    @add("shape derivatives in two directions plus a plain integral")
+    def _():
+        m = new_mesh()
+        V, W = FunctionSpace(m, L(ufl.triangle, 1)), FunctionSpace(m, L(ufl.triangle, 1, (2,)))
+        f, g = Coefficient(V), Coefficient(V)
+        d1, d2 = Coefficient(W), Coefficient(W)
+        x = SpatialCoordinate(m)
+        return derivative(f * dx(m), x, d1) + derivative(g * g * dx(m), x, d2) + f * g * dx(m)
+
     @add("tetrahedron, quadratic geometry")
     def _():
         m = new_mesh(ufl.tetrahedron, 2)
